@@ -1136,7 +1136,13 @@ where
         let mut safe = self.safe.write().await;
         if let None = safe.active_blob {
             let blob_opt = safe.blobs.write().await.pop();
-            if let Some(blob) = blob_opt {
+            if let Some(mut blob) = blob_opt {
+                // An active blob must have its index in memory to accept writes
+                // (the index of a closed blob may have been dumped to disk already)
+                if let Err(e) = blob.load_index().await {
+                    safe.blobs.write().await.push(blob).await;
+                    return Err(e);
+                }
                 safe.active_blob = Some(Box::new(ASRwLock::new(blob)));
                 Ok(())
             } else {
